@@ -91,6 +91,40 @@ pub fn run(ctx: &Ctx) -> Outcome {
         out.violations.extend(findings_to_violations(&scn, &r.findings, &judge));
         out.parts.push(p);
     }
+    // "all MTU configurations": the loss-free promptness clause over a grid of link MTUs (the first probe
+    // sizes grow with the link MTU; the initial congestion window does not), both address families
+    {
+        let mut p = Part::fe("duo:link-mtu-grid");
+        let mut classes = std::collections::BTreeSet::new();
+        let grid: Vec<(usize, bool)> = ctx.tier.pick(vec![600, 1500, 1700, 4000, 9000], vec![600, 700, 1280, 1500, 1600, 1700, 2000, 3000, 4000, 9000, 16_000, 65_000]).into_iter().flat_map(|m| [(m, false), (m.max(1300), true)]).collect();
+        for (link, v6) in grid {
+            let bytes = (8 * link).max(12_000);
+            let mut scn = lib::mtu_transfer(link, None, None, bytes, v6);
+            for c in [&mut scn.a, &mut scn.b] {
+                c.rx_buf = 1 << 20;
+                c.tx_init = 1 << 18;
+                c.tx_max = 1 << 20;
+                c.inactivity_ms = 30_000;
+            }
+            scn.horizon_s = 20;
+            let cfg = ExploreCfg { max_dev: ctx.tier.pick(0, 1), min_k: 2, fates: vec![crate::duo::sim::Fate::Drop], eligible: &always, judge: &judge, max_runs: ctx.tier.pick(5_000, 100_000) };
+            let r = explore(ctx, &scn, &cfg);
+            p.evaluations += r.runs;
+            p.distinct_nontrivial += r.distinct_traces;
+            for c in r.outcome_classes.keys() {
+                classes.insert(format!("{link}:{c}"));
+            }
+            if let Some(c) = &r.capped {
+                p.caps_hit.push(c.clone());
+                p.exhaustive = false;
+            }
+            out.violations.extend(findings_to_violations(&scn, &r.findings, &judge));
+        }
+        p.distinct_outcomes = classes.len() as u64;
+        p.bound = format!("link MTUs {} x {{IPv4, IPv6}}, a transfer of 8 link MTUs (at least 12 kB), {}", ctx.tier.pick("{600, 1500, 1700, 4000, 9000}", "{600 .. 65000} (12 values)"), ctx.tier.pick("the loss-free run", "the loss-free run and every single drop"));
+        p.samples.push(json!({"link_mtu": 9000, "plan": []}));
+        out.parts.push(p);
+    }
     // clause 3: wake-ups / immediacy / no deadlock, in every state of the flow and close drivers (solo)
     {
         use super::solo_drivers::*;
@@ -100,6 +134,7 @@ pub fn run(ctx: &Ctx) -> Outcome {
         run_and_report(ctx, &rx(ctx.tier, 2, vec![MSS], d), &mut out);
         run_and_report(ctx, &rx(ctx.tier, 4, vec![1, MSS], d), &mut out);
         run_and_report(ctx, &rx_grown_mss(ctx.tier, d), &mut out);
+        run_and_report(ctx, &rx_empty_read(ctx.tier, ctx.tier.pick(6, 8)), &mut out);
         run_and_report(ctx, &close(ctx.tier, d), &mut out);
         run_and_report(ctx, &sack_keepalive(ctx.tier, ctx.tier.pick(6, 9)), &mut out);
         run_and_report(ctx, &rx_halfclosed(ctx.tier, d), &mut out);
